@@ -5,8 +5,9 @@ Decided clauses:
                 both modes: rows kept iff (k-mer in weed set) == reverse, bases / names untouched, counts stay aligned
   C13.args      the weed set is RefSka::new(array.kmer_len(), file, array.rc(), false, false) of the array being
                 weeded, collected from kmer_iter() over all reference k-mers into a HashSet
-  C13.nofilter  generic_modes::weed calls filter only if floor(n*min_freq) > 0 || filter != NoFilter || ambig_mask ||
-                ignore_const_gaps; sample names are never written by weed
+  C13.e2e/.cli generic_modes::weed / ska::main interpreted over virtual files: with filtering off the saved file is the original
+                minus / restricted to the weed k-mers, rows and names untouched, the two modes partition the file
+  C13.nofilter  sample names are never written by MergeSkaArray::weed
   (inherits C01.guard through RefSka::new: the weed sequences' last window)
 """
 from ..facts import AnchorLost
@@ -15,12 +16,15 @@ from ..cond import reach_formula, eval_formula, eval_expr, Unevaluable
 from .util import reachable_without, field_writes
 from .c12 import _region_head
 
-EXPLANATION = 'Small-scope abstract interpretation of MergeSkaArray::weed against the plain-table model; path-condition truth table for the filter gate; provenance of the weed-set construction.'
+EXPLANATION = 'Small-scope abstract interpretation of MergeSkaArray::weed against the plain-table model; provenance of the weed-set construction.'
 ASSUMPTIONS = ['models of HashSet (from_iter/contains), ndarray::Array2 (zeros/push_row/outer_iter) and Vec are faithful']
 MSA = 'merge_ska_array::MergeSkaArray'
 
 
 def run(facts, chk, tier, only=None):
+    from . import cli_e2e
+    # the subcommand through ska::main() itself (argument parser replaced by a constructed Args value): hand-over of CLI values, width dispatch
+    chk.guard('C13.cli', 'C13.cli:run0', lambda: cli_e2e.check_weed(facts, chk, 'C13.cli', tier))
     # the operation itself: interpreted on all weed subsets (incl. absent / duplicate k-mers), both modes, stale counts
     from . import tableops
     chk.guard('C13.func', 'C13.func:weed', lambda: tableops.check_weed(facts, chk, 'C13.func', tier))
@@ -65,59 +69,16 @@ def run(facts, chk, tier, only=None):
             else:
                 chk.violation('C13.args', 'C13.args:weed:%s' % nm, where='generic_modes::weed', detail='violated: ' + why)
 
-    def nofilter():
-        g = facts.fn('generic_modes::weed')
-        eb = ExprBuilder(g)
-        fc = [bb for bb, t in g.calls() if (t.callee.name or '') == MSA + '::filter']
-        wc = [(bb, t) for bb, t in g.calls() if (t.callee.name or '') == MSA + '::weed']
-        if len(fc) != 1:
-            raise AnchorLost('generic_modes::weed: %d filter calls' % len(fc))
-        # start after the optional weed block: the block computing the threshold (call to floor)
-        fl = [bb for bb, t in g.calls() if (t.callee.name or '').endswith('::floor')]
-        if len(fl) != 1:
-            raise AnchorLost('generic_modes::weed: threshold floor() not found')
-        f = reach_formula(g, eb, g.blocks[fl[0]].term.target, _region_head(g, fc[0]), back_edges_ok=True)
-        bad = []
-        for thr in (0, 1):
-            for nf in (0, 1):
-                for am in (0, 1):
-                    for ig in (0, 1):
-                        def leaf(x, thr=thr, nf=nf, am=am, ig=ig):
-                            if x[0] == 'bin' and x[1] in ('Gt', 'Ne') and x[3] == ('const', 0, 'usize'):
-                                return thr
-                            if x[0] == 'arg' and x[2] == 'ambig_mask':
-                                return am
-                            if x[0] == 'arg' and x[2] == 'ignore_const_gaps':
-                                return ig
-                            if x[0] == 'call' and x[1].endswith('::ne'):
-                                return 1 - nf
-                            if x[0] == 'call' and x[1].endswith('::eq'):
-                                return nf
-                            if x[0] == 'call' and x[1].endswith('::le') or (x[0] == 'call' and 'log::' in x[1]):
-                                return 0
-                            raise Unevaluable()
-                        got = bool(eval_formula(f, lambda ex: eval_expr(ex, leaf)))
-                        want = bool(thr or (not nf) or am or ig)
-                        if got != want:
-                            bad.append((thr, nf, am, ig))
-        # threshold = floor(nsamples * min_freq) as usize
-        te = eb.operand(g.blocks[fl[0]].term.args[0])
-        thr_ok = te[0] == 'bin' and te[1] == 'Mul' and 'nsamples(' in show(te) and 'min_freq' in show(te)
-        # names untouched
+    # (the former shape rule "filter runs iff floor(n*min_freq) > 0 || filter != NoFilter || ambig_mask || ignore_const_gaps" is
+    #  gone: what the property needs - with filtering off the rows and names come out untouched - is decided functionally by
+    #  C13.e2e:weed / C13.cli, whichever way the call to filter is gated)
+    def names():
         ni = facts.field_index(MSA, 'names')
         w = facts.fn(MSA + '::weed')
-        nw = field_writes(w, 1, ni)
-        name_mut = [t.span for _, t in w.calls() if any('.%d' % ni in show(ExprBuilder(w).operand(a)) and 'mut' in repr(a) for a in t.args)]
-        return bad, thr_ok, bool(nw), g.blocks[fc[0]].term.span
-    r = chk.guard('C13.nofilter', 'C13.nofilter:weed', nofilter)
+        return bool(field_writes(w, 1, ni))
+    r = chk.guard_soft('C13.nofilter', 'C13.nofilter:weed:names', names, twins=['C13.e2e:weed'])
     if r is not None:
-        bad, thr_ok, nw, sp = r
-        if bad or not thr_ok:
-            chk.violation('C13.nofilter', 'C13.nofilter:weed:gate', where=sp, evals=16,
-                          detail='filter gate differs from (threshold>0 || filter!=NoFilter || ambig_mask || ignore_const_gaps) at %s; threshold=floor(n*min_freq): %s' % (bad[:3], thr_ok))
-        else:
-            chk.ok('C13.nofilter', 'C13.nofilter:weed:gate', sp, 'filter runs iff floor(n*min_freq) > 0 || filter != NoFilter || ambig_mask || ignore_const_gaps (16 rows)', evals=16)
-        if nw:
+        if r:
             chk.violation('C13.nofilter', 'C13.nofilter:weed:names', where=MSA + '::weed', detail='MergeSkaArray::weed writes self.names')
         else:
             chk.ok('C13.nofilter', 'C13.nofilter:weed:names', MSA + '::weed', 'weed never assigns self.names')
